@@ -245,6 +245,14 @@ def call_builtin(ex, e, st, name, desc):
     if name == 'isinstance' and len(e.args) == 2:
         a0 = ex.ev(e.args[0], st)
         return val(st, V(S.mk_bool(isinstance_formula(ex, a0, e.args[1], st)), S.Bool))
+    if name == 'getattr' and len(e.args) in (2, 3) and isinstance(e.args[1], ast.Constant) and isinstance(e.args[1].value, str):
+        # getattr(obj, '<declared field>'[, default]): the attribute read; a field declared in the ClassInfo is taken to be always present (the default is never used)
+        o = ex.ev(e.args[0], st)
+        ty = ex.obj_class(o, st, desc) if S.strip_opt(o.ty).kind in ('obj', 'any') else o.ty
+        if ty.kind == 'obj' and e.args[1].value in (ex.class_info(ty.cls).fields if ex.class_info(ty.cls) else {}):
+            ex.notes.append(f'getattr(_, {e.args[1].value!r}, default): declared field, read as an attribute (its presence is assumed)')
+            return val(st, ex.ev(ast.Attribute(value=e.args[0], attr=e.args[1].value, ctx=ast.Load()), st))
+        raise Unsupported(f'getattr of an undeclared attribute: {desc}')
     if name == 'hasattr' and len(e.args) == 2 and isinstance(e.args[1], ast.Constant) and e.args[1].value == '__iter__':
         # str, tuple, list, dict, set have __iter__; int, bool, None, float do not; other classes: an uninterpreted predicate of the dynamic class
         a0 = ex.ev(e.args[0], st)
@@ -318,6 +326,8 @@ def call_builtin(ex, e, st, name, desc):
     if name == 'abs' and len(args) == 1 and args[0].ty.kind == 'int':
         a = S.ival(args[0].t)
         return val(st, V(S.mk_int(z3.If(a >= 0, a, -a)), S.Int))
+    if name == 'id' and len(args) == 1:
+        return val(st, V(S.mk_int(z3.Function('py_id', S.PyObj(), z3.IntSort())(args[0].t)), S.Int))
     if name == 'hash':
         ex.used_trusted.add('builtins.hash (uninterpreted function of the value)')
         hf = z3.Function('py_hash', S.PyObj(), z3.IntSort())
@@ -481,6 +491,14 @@ def list_method(ex, st, recv, ty, a, meth, args, kwargs, desc):
             i = ex.index_term(args[0], seq, st, desc)
             t = S.at(seq, i)
             st.set_field('list', z3.Store(h, a, z3.Concat(z3.Extract(seq, 0, i), z3.Extract(seq, i + 1, n - i - 1))))
+        st.assume(S.has_type(t, ty.t, st.next_ref))
+        return V(t, ty.t)
+    if meth == 'popleft' and not args:
+        # collections.deque modelled as a list: popleft() == pop(0)
+        n = z3.Length(seq)
+        ex.safety(st, 'IndexError', desc, n > 0)
+        t = S.at(seq, 0)
+        st.set_field('list', z3.Store(h, a, z3.Extract(seq, 1, n - 1)))
         st.assume(S.has_type(t, ty.t, st.next_ref))
         return V(t, ty.t)
     if meth == 'insert' and len(args) == 2 and args[0].ty.kind == 'int':
